@@ -69,8 +69,14 @@ func (q *quickRunner) Run(t *task.Task) error {
 	}
 	t.Start = time.Now()
 	q.onChange(t)
+	d := q.d
+	if t.Name == "bad" {
+		// the failing task is the last one of its job to end, around the moment the scheduler loop wakes up from its
+		// 50 ms pause (the loop looks at the stages while the failure is still being reported)
+		d = 44*time.Millisecond + time.Duration(time.Now().UnixNano()%12000)*time.Microsecond
+	}
 	select {
-	case <-time.After(q.d):
+	case <-time.After(d):
 		t.End = time.Now()
 		if t.Name == "bad" {
 			t.Errored, t.Error = true, errBad
@@ -120,11 +126,11 @@ type factKey struct {
 	Prop string `json:"prop"`
 	What string `json:"what"`
 	P    string `json:"p"`
-	A    int    `json:"a"` // C01: running jobs   C05: waiting jobs   C11: seq of the accepting critical section   C16: variant of the job
-	B    int    `json:"b"` // C01: concurrency    C05: queue limit    C11: seq of Shutdown.begin (0: none)        C16: variant installed at that moment
+	A    int    `json:"a"` // C01: running jobs   C05: waiting jobs   C11: 1 = accepted after Shutdown began   C16: variant of the job
+	B    int    `json:"b"` // C01: concurrency    C05: queue limit    C11: 1 = Shutdown has begun              C16: variant installed at that moment
 }
 
-var qlimit = map[string]int{"a": 3, "b": 1, "c": -1, "r": 3, "f": -1}
+var qlimit = map[string]int{"a": 3, "b": 1, "c": -1, "r": 3, "f": 3}
 
 func defs(variant int) *definition.PipelinesDef {
 	three, one := 3, 1
@@ -136,7 +142,7 @@ func defs(variant int) *definition.PipelinesDef {
 		"c": {Concurrency: 1, SourcePath: "x", RetentionPeriod: 300 * time.Millisecond,
 			Tasks: map[string]definition.TaskDef{"t": {Script: []string{"x"}}, "u": {Script: []string{"x"}}}},
 		// a task that fails while its sibling goes on (no fail-fast): the job must end with that error
-		"f": {Concurrency: 2, SourcePath: "x", ContinueRunningTasksAfterFailure: true, RetentionCount: 8,
+		"f": {Concurrency: 2, QueueLimit: &three, SourcePath: "x", ContinueRunningTasksAfterFailure: true,
 			Tasks: map[string]definition.TaskDef{"bad": {Script: []string{"x"}}, "good": {Script: []string{"x"}}}},
 		"r": {Concurrency: 2, QueueLimit: &three, SourcePath: "x", RetentionCount: 6,
 			Tasks: map[string]definition.TaskDef{"t": {Script: []string{"true"}}, "u": {Script: []string{"sleep 0.02"}, DependsOn: []string{"t"}}}},
@@ -285,6 +291,21 @@ func TestConcurrentClients(t *testing.T) {
 			}()
 		}
 		nclients := 8
+		// a slow reader: holds the read lock for 2 ms out of every 6 (the callbacks of running jobs queue up behind it)
+		wg.Add(1)
+		go func() {
+			defer wg.Done()
+			for time.Now().Before(stop) {
+				once := false
+				pr.IterateJobs(func(j *prunner.PipelineJob) {
+					if !once {
+						once = true
+						time.Sleep(2 * time.Millisecond)
+					}
+				})
+				time.Sleep(4 * time.Millisecond)
+			}
+		}()
 		for c := 0; c < nclients; c++ {
 			wg.Add(1)
 			go func(c int) {
@@ -302,7 +323,15 @@ func TestConcurrentClients(t *testing.T) {
 							mu.Lock()
 							ls, sd := lastSched[me], shutdownSeq
 							mu.Unlock()
-							fact(factKey{Prop: "C11", What: "accepted-vs-shutdown", P: p, A: ls[0], B: sd})
+							// a = 1: the accepting critical section came after the one in which Shutdown began (b = 1: it has begun)
+							after, begun := 0, 0
+							if sd > 0 {
+								begun = 1
+								if ls[0] > sd {
+									after = 1
+								}
+							}
+							fact(factKey{Prop: "C11", What: "accepted-vs-shutdown", P: p, A: after, B: begun})
 							if p == "a" {
 								jv, _ := strconv.Atoi(j.Env["V"])
 								fact(factKey{Prop: "C16", What: "job-built-from-installed-definitions", P: p, A: jv, B: ls[1]})
@@ -344,7 +373,13 @@ func TestConcurrentClients(t *testing.T) {
 						running := map[string]int{}
 						waiting := map[string]int{}
 						seen := map[uuid.UUID]bool{}
+						slept := false
 						pr.IterateJobs(func(j *prunner.PipelineJob) {
+							if c == 0 && !slept {
+								// a slow reader: holds the read lock for a while (callbacks of running jobs queue up behind it)
+								slept = true
+								time.Sleep(time.Duration(1+rnd.Intn(3)) * time.Millisecond)
+							}
 							if seen[j.ID] {
 								bad("job listed twice", j.ID.String())
 							}
@@ -401,6 +436,25 @@ func TestConcurrentClients(t *testing.T) {
 		pr.IterateJobs(func(j *prunner.PipelineJob) {
 			if !j.Completed && !j.Canceled {
 				nonTerminal++
+			}
+			if os.Getenv("VERIF_DEBUG") != "" && j.Pipeline == "f" {
+				sts := ""
+				for _, tk := range j.Tasks {
+					sts += fmt.Sprintf("%s=%s/%v ", tk.Name, tk.Status, tk.Errored)
+				}
+				fmt.Fprintf(os.Stderr, "DBG f job completed=%v canceled=%v err=%v %s\n", j.Completed, j.Canceled, j.LastError, sts)
+			}
+			// the verdict of every finished job of the pipeline that goes on after a failure
+			if j.Completed && j.Pipeline == "f" && !j.Canceled {
+				for _, tk := range j.Tasks {
+					if tk.Status == "error" && tk.Errored {
+						k := factKey{Prop: "C08", What: "verdict-of-completed-job-with-failed-task", P: "f"}
+						if j.LastError == nil {
+							k.A = 1 // reported as succeeded
+						}
+						fact(k)
+					}
+				}
 			}
 		})
 		fact(factKey{Prop: "C11", What: "non-terminal-jobs-after-shutdown-returned", A: nonTerminal})
